@@ -30,3 +30,7 @@ chk("C06", "E2-dfs", "fault_enumeration",
     "For every request shape (kind x addressing x lock state x planted record x malformed length x closed store) every execution with at most d departures from the default environment answer is run through the real gRPC signer handlers on the real stack; every call of fetcher, checker, unlocker, rules.On*, the store operations (error; store closed between read and write) and Account.Sign/IsUnlocked is a choice point. Oracle: signature present iff SUCCEEDED at the wire and at the service, position by position, and no signature at a position served by a failed or indeterminate step.",
     "Trusted: fault menu excludes results no in-tree rules implementation can produce; GOMAXPROCS=1 in explorer processes; a request that never answers (badger blocks on a closed database) counts as 'no signature'.",
     "deviation-bounded exhaustive fault injection at every dependency call site of the implementation", "5/C06")
+chk("C07", "E5-grid", "exploration",
+    "Exhaustive grid of permission tables (literal, alternation, class, own-anchor, escaped-dollar, mixed-case patterns x ordered operation lists incl. None/~op) x requests at checker.Check against a reference evaluator written from the property text (one-directional: allowed by Dirk implies allowed by the text), plus a service-level grid in which every operation of signer, lister, account manager, wallet manager and generate is driven under reduced tables and must be carried out only if the evaluator allows it on the resolved name, refused requests leaving decoded records and lock state unchanged.",
+    "Trusted: names/patterns outside the alphabets behave like their representatives; YAML entry order (main.go ranges over a map) is out of scope.",
+    "exhaustive configuration x request grid against an independent reference evaluator", "5/C07")
